@@ -578,7 +578,7 @@ def b_rand_spd(rng, n):
 def run_all(ctx, cuqi, thorough):
     """all session-3 streams; the model lines of the streams are sent to the Lean driver in ONE batch"""
     gens = [gallery(ctx, cuqi, 40 if thorough else 6), observer_histories(ctx, cuqi, 8 if thorough else 1),
-            point_representations(ctx, cuqi, 8 if thorough else 2)]
+            point_representations(ctx, cuqi, 8 if thorough else 2), glue_geometries(ctx, cuqi, 6 if thorough else 1)]
     reqs = []
     for g in gens:
         try:
@@ -623,12 +623,18 @@ def point_representations(ctx, cuqi, reps):
 
     jobs = []; lines = []
     for rep_i in range(reps):
-        for gk in ("identity", "scaled", "scaled+grad"):
+        for gk in ("identity", "scaled", "scaled+grad", "square+grad"):
             n = rng.choice([2, 3]); m = rng.choice([2, 3])
-            c = 1.0 if gk == "identity" else rng.choice([2.0, 3.0, 0.5, -2.0])
+            c = 1.0 if gk in ("identity", "square+grad") else rng.choice([2.0, 3.0, 0.5, -2.0])
             rec = {}
             if gk == "identity":
                 dom = G.Continuous1D(n)
+            elif gk == "square+grad":
+                # a geometry whose own derivative DEPENDS on wrt_par (par2fun = p**2): a wrong wrt_par changes the value
+                dom = G.MappedGeometry(G.Continuous1D(n), map=lambda p: p ** 2, imap=lambda f: np.sqrt(f))
+                def sgrad(direction, wrt, rec=rec):
+                    rec["wrt_par_sq"] = np.array(wrt, dtype=float); return 2 * np.asarray(wrt) * np.asarray(direction)
+                dom.gradient = sgrad
             else:
                 dom = G.MappedGeometry(G.Continuous1D(n), map=lambda p, c=c: c * p, imap=lambda f, c=c: f / c)
                 if gk == "scaled+grad":
@@ -643,6 +649,8 @@ def point_representations(ctx, cuqi, reps):
             with quiet():
                 mod = Model(lambda f, A=A, Bq=Bq: A @ f + Bq @ (f * f), G.Continuous1D(m), dom, gradient=gradf)
             p = _vec(rng, n, -2, 2); f = c * p; direction = _vec(rng, m, -2, 2)
+            if gk == "square+grad":
+                p = _vec(rng, n, 0.5, 2.5); f = p ** 2
             variants = [("ndarray", p.copy(), True, p), ("cuqi-par", CUQIarray(p.copy(), is_par=True, geometry=dom), True, p),
                         ("cuqi-fun", CUQIarray(f.copy(), is_par=False, geometry=dom), True, f),
                         ("cuqi-other", CUQIarray(p.copy(), is_par=True, geometry=G.Discrete(n)), True, p),
@@ -676,6 +684,11 @@ def point_representations(ctx, cuqi, reps):
                 ctx.fail(key, desc, "the direction-Jacobian product", f"{st}({exc})", "Model.gradient refuses / returns no vector for a plain parameter array")
             continue              # refusing an unusual container is allowed
         m_wp, m_wf = b.decv(mo[0]), b.decv(mo[1])
+        if gk == "square+grad":
+            # not an affine geometry: no `glue` comparison; the oracle decides (the geometry derivative uses wrt_par)
+            f_dir = lambda z: float(direction @ np.asarray(mod.forward(np.asarray(z, dtype=float))))
+            b.oracle_value(ctx, key, desc, f_dir, val, p, in_support=True)
+            continue
         if "wrt" in rec and not b.cmp_vec(m_wf, rec["wrt"].tolist(), 1e-12):
             ctx.disagree(key, desc, m_wf, rec["wrt"].tolist(), "array handed to _gradient_func differs from wrtFun")
         if "wrt_par" in rec and not b.cmp_vec(m_wp, rec["wrt_par"].tolist(), 1e-12):
@@ -792,3 +805,209 @@ def point_representations(ctx, cuqi, reps):
                         ctx.fail(key + f":{rname}", d2, ref, float(a[0]), "gradient at a scalar point is not the derivative of the log-density")
             with quiet():
                 obj.disable_FD()
+
+
+# ----------------------------------------------------------------------------------------------------------------
+def _finv(E):
+    """exact inverse of a small square float matrix with rational entries, as Fractions"""
+    n = len(E)
+    A = [[Fraction(float(E[i][j])) for j in range(n)] + [Fraction(int(i == j)) for j in range(n)] for i in range(n)]
+    for c in range(n):
+        piv = next(r for r in range(c, n) if A[r][c] != 0)
+        A[c], A[piv] = A[piv], A[c]
+        A[c] = [v / A[c][c] for v in A[c]]
+        for r in range(n):
+            if r != c and A[r][c] != 0:
+                A[r] = [a - A[r][c] * b_ for a, b_ in zip(A[r], A[c])]
+    return [row[n:] for row in A]
+
+
+def _fm(M):
+    return ";".join(",".join(str(Fraction(v)) if not isinstance(v, Fraction) else str(v) for v in row) for row in M)
+
+
+def glue_geometries(ctx, cuqi, reps):
+    """`Model.gradient` on affine / permutation / expansion domain geometries and its refusals.  For each geometry the
+    matrices of par2fun (`E`, offset `d`) and fun2par (`Fm`) are read from the geometry itself (unit vectors); the arrays
+    the code hands to `_gradient_func` / `geometry.gradient` are recorded and compared with `wrtFun` / `wrtPar` on
+    `linGeo E d Fm` (driver op `glue2`); the outcome class (vector as ndarray / as CUQIarray, ValueError,
+    NotImplementedError) with `gradientOutcome` (op `gradout`; a differing exception *class* is only noted); the vector with
+    the numerical derivative of p -> direction . forward(p)."""
+    b = _base()
+    G = cuqi.geometry
+    from cuqi.array import CUQIarray
+    from cuqi.samples import Samples
+    from cuqi.model import Model
+    rng = random.Random(ctx.seed * 49979687 + 13)
+    cov = ctx.extra_cov.setdefault("glue_geometries", {})
+    ID = [c.__name__ for c in G._get_identity_geometries()]
+
+    def bump(k):
+        cov[k] = cov.get(k, 0) + 1
+
+    class AffineDomain(G.Geometry):
+        def __init__(self, E, d, with_f2p=True):
+            self._E, self._d, self._with = E, d, with_f2p
+        @property
+        def par_shape(self):
+            return (self._E.shape[1],)
+        @property
+        def fun_shape(self):
+            return (self._E.shape[0],)
+        def par2fun(self, p):
+            return self._E @ p + self._d
+        def fun2par(self, f):
+            if not self._with:
+                raise NotImplementedError("fun2par not implemented")
+            return np.linalg.solve(self._E, f - self._d)
+        def gradient(self, direction, wrt):
+            return self._E.T @ direction
+        def _plot(self):
+            pass
+        def __eq__(self, other):
+            return self is other
+
+    def make(kind):
+        """(geometry, E (N x n), d, Fm (n x N) or None)"""
+        n = rng.choice([2, 3])
+        if kind in ("affine", "affine-nofun2par"):
+            E = np.eye(n) + np.tril(np.array([[_dy(rng, -1, 1, 2) for _ in range(n)] for _ in range(n)]), -1)
+            E = E * rng.choice([1.0, 2.0, -0.5])
+            d = _vec(rng, n, -1, 1)
+            return AffineDomain(E, d, kind == "affine"), E, d, _finv(E)
+        if kind.startswith("image2d"):
+            h, w = rng.choice([(2, 3), (3, 2), (2, 2)])
+            g = G.Image2D((h, w), order=kind[-1])
+        elif kind == "step":
+            g = G.StepExpansion(np.linspace(0, 1, 2 * n), n_steps=n)
+        elif kind == "kl":
+            g = G.KLExpansion(np.linspace(0, 1, n + 2), num_modes=n)
+        elif kind == "mapped-noimap":
+            g = G.MappedGeometry(G.Continuous1D(n), map=lambda p: 2 * p)
+            g.gradient = lambda direction, wrt: 2 * np.asarray(direction)
+            return g, 2 * np.eye(n), np.zeros(n), [[Fraction(int(i == j), 2) for j in range(n)] for i in range(n)]
+        npar = g.par_dim
+        E = np.array([np.asarray(g.par2fun(np.eye(npar)[i]), dtype=float).ravel() for i in range(npar)]).T
+        N = E.shape[0]
+        try:
+            Fm = np.array([np.asarray(g.fun2par(np.eye(N)[l].reshape(g.fun_shape)), dtype=float).ravel() for l in range(N)]).T
+            Fm = [[Fraction(float(v)) for v in row] for row in Fm]
+        except Exception:  # noqa
+            Fm = [[Fraction(0)] * N for _ in range(npar)]
+        if kind in ("step", "kl"):
+            g.gradient = lambda direction, wrt, E=E: E.T @ np.asarray(direction).ravel()
+        return g, E, np.zeros(N), Fm
+
+    KINDS = ["affine", "image2d-C", "image2d-F", "step", "kl", "mapped-noimap", "affine-nofun2par"]
+    jobs = []; lines = []
+    for rep_i in range(reps):
+        for kind in KINDS:
+            try:
+                with quiet():
+                    dom, E, d, Fm = make(kind)
+            except Exception as e:  # noqa
+                ctx.note(f"glue geometry refused {kind}: {e!r}"[:160]); continue
+            N, n = E.shape
+            m = rng.choice([2, 3])
+            A = np.array([[rng.randint(-2, 2) for _ in range(N)] for _ in range(m)], dtype=float)
+            Bq = np.array([[rng.choice([0, 1, -1, 0.5]) for _ in range(N)] for _ in range(m)], dtype=float)
+            rec = {}
+            fshape = tuple(dom.fun_shape)
+            def gradf(direction, wrt, A=A, Bq=Bq, rec=rec, fshape=fshape):
+                w = np.asarray(wrt, dtype=float).ravel()
+                rec["wrt"] = w.copy(); return (np.asarray(direction).ravel() @ (A + 2 * Bq * w[None, :])).reshape(fshape)
+            if hasattr(dom, "gradient") and kind in ("affine", "step", "kl", "affine-nofun2par", "mapped-noimap"):
+                og = dom.gradient
+                def ggrad(direction, wrt, og=og, rec=rec):
+                    rec["wrt_par"] = np.array(wrt, dtype=float).ravel(); return og(direction, wrt)
+                try:
+                    dom.gradient = ggrad
+                except Exception:  # noqa
+                    pass
+            p = _vec(rng, n, -2, 2)
+            f = (E @ p + d)
+            fimg = f.reshape(fshape)
+            for variant in ("ndarray", "cuqi-par", "cuqi-fun", "cuqi-other", "funvals", "ndarray+cuqi-direction", "no-gradient-func",
+                            "samples-direction", "step-range"):
+                rname = variant if variant in ("ndarray", "cuqi-par", "cuqi-fun", "cuqi-other", "funvals") else "ndarray"
+                with quiet():
+                    try:
+                        rgeo = G.StepExpansion(np.linspace(0, 1, 2 * m), n_steps=m) if variant == "step-range" else G.Continuous1D(m)
+                        mod = Model(lambda ff, A=A, Bq=Bq: A @ np.asarray(ff).ravel() + Bq @ (np.asarray(ff).ravel() ** 2), rgeo, dom,
+                                    gradient=(None if variant == "no-gradient-func" else gradf))
+                        wrt = {"ndarray": p.copy(), "cuqi-par": CUQIarray(p.copy(), is_par=True, geometry=dom),
+                               "cuqi-fun": CUQIarray(fimg.copy(), is_par=False, geometry=dom),
+                               "cuqi-other": CUQIarray(p.copy(), is_par=True, geometry=G.Discrete(n)), "funvals": fimg.copy()}[rname]
+                    except Exception as e:  # noqa
+                        ctx.note(f"glue representation refused {kind}/{variant}: {e!r}"[:160]); continue
+                direction = _vec(rng, m, -2, 2)
+                dirobj = direction
+                if variant == "ndarray+cuqi-direction":
+                    dirobj = CUQIarray(direction.copy(), is_par=True, geometry=rgeo)
+                elif variant == "samples-direction":
+                    dirobj = Samples(direction.reshape(-1, 1).copy())
+                needs = rname in ("cuqi-fun", "funvals")
+                f2p = "ok"
+                if needs:
+                    try:
+                        with quiet():
+                            dom.fun2par(fimg.copy())
+                    except NotImplementedError:
+                        f2p = "ni"
+                    except ValueError:
+                        f2p = "ve"
+                    except Exception:  # noqa
+                        f2p = "ok"
+                content = f if needs else p
+                l1 = f"glue2 {rname} {qm(E)} {qv(d)} {_fm(Fm)} {qv(content)}"
+                l2 = (f"gradout {int(needs)} {f2p} {int(variant != 'no-gradient-func')} {int(variant == 'samples-direction')} "
+                      f"{int(variant != 'step-range')} {int(hasattr(dom, 'gradient'))} {int(type(dom).__name__ in ID)} {int(variant == 'ndarray+cuqi-direction')}")
+                lines += [l1, l2]
+                jobs.append((kind, variant, rname, mod, rec, wrt, rname != "funvals", dirobj, direction, E, d, n, l1, l2))
+    outs = iter((yield lines))
+
+    for kind, variant, rname, mod, rec, wrt, flag, dirobj, direction, E, d, n, l1, l2 in jobs:
+        mo = next(outs).split(); mout = next(outs).strip()
+        desc = {"glue-geometry": kind, "variant": variant, "lines": [l1, l2]}
+        ctx.case("glue-geometry", desc)
+        key = f"glue:{kind}:{variant}"
+        rec.clear()
+        try:
+            with quiet():
+                r = mod.gradient(dirobj, wrt, is_wrt_par=flag)
+            got = "value-cuqiarray" if type(r) is CUQIarray else "value-ndarray"
+        except ValueError:
+            r = None; got = "ValueError"
+        except NotImplementedError:
+            r = None; got = "NotImplementedError"
+        except Exception as e:  # noqa
+            r = None; got = type(e).__name__
+        bump(f"{kind}:{variant}:{got}")
+        m_wp = np.array(b.decv(mo[0]))
+        if mout.startswith("value") != got.startswith("value"):
+            ctx.disagree(key, desc, mout, got, "Model.gradient: vector vs refusal differs from gradientOutcome")
+            if got.startswith("value") and r is not None and not variant.startswith("samples"):
+                a = np.asarray(r, dtype=float).ravel()
+                f_dir = lambda z: float(direction @ np.asarray(mod.forward(np.asarray(z, dtype=float)), dtype=float).ravel())
+                if a.shape == (n,):
+                    b.oracle_value(ctx, key, desc, f_dir, a, m_wp, in_support=True)
+                else:
+                    ctx.fail(key, desc, "vector or refusal", f"shape {a.shape}", "neither a gradient vector nor a refusal")
+            continue
+        if not got.startswith("value"):
+            if mout != got:
+                ctx.note(f"glue {kind}/{variant}: refusal class {got}, model {mout} (class not demanded)")
+            continue
+        if mout != got:
+            # the container of the output is not part of the property: recorded, not demanded
+            bump("wrapping-differs-from-model")
+            ctx.note(f"glue {kind}/{variant}: output container {got}, model {mout} (container not demanded)")
+        a = np.asarray(r, dtype=float).ravel()
+        if "wrt" in rec and not b.cmp_vec(b.decv(mo[1]), rec["wrt"].tolist(), 1e-9):
+            ctx.disagree(key, desc, b.decv(mo[1]), rec["wrt"].tolist(), "array handed to _gradient_func differs from wrtFun (linGeo)")
+        if "wrt_par" in rec and not b.cmp_vec(m_wp.tolist(), rec["wrt_par"].tolist(), 1e-9):
+            ctx.disagree(key, desc, m_wp.tolist(), rec["wrt_par"].tolist(), "array handed to geometry.gradient differs from wrtPar (linGeo)")
+        if a.shape != (n,):
+            ctx.fail(key, desc, f"vector of length {n}", f"shape {a.shape}", "neither a gradient vector nor a refusal"); continue
+        f_dir = lambda z: float(direction @ np.asarray(mod.forward(np.asarray(z, dtype=float)), dtype=float).ravel())
+        b.oracle_value(ctx, key, desc, f_dir, a, m_wp, in_support=True)
